@@ -27,6 +27,7 @@ type RefineOutput struct {
 // B.4 M
 type IntegratedPVMType struct {
 	ProgramCode ProgramCode    // p
+	Program     *Program       // deblob(p): decoded once, when the machine is created
 	Memory      Memory         // u
 	PC          ProgramCounter // i
 }
